@@ -81,8 +81,8 @@ def _xearley_roles(f: FuncInfo) -> Dict[str, str]:
             continue
         ch = n.target.id
         for st in n.body:
-            if isinstance(st, ast.If) and isinstance(st.test, ast.Compare) and isinstance(st.test.left, ast.Name) \
-                    and st.test.left.id == ch and len(st.test.ops) == 1 and isinstance(st.test.ops[0], ast.Eq):
+            if isinstance(st, ast.If) and isinstance(st.test, ast.Compare) and len(st.test.ops) == 1 and isinstance(st.test.ops[0], ast.Eq) \
+                    and any(isinstance(o_, ast.Name) and o_.id == ch for o_ in (st.test.left, st.test.comparators[0])):
                 inc_true = [s.target.id for s in st.body if isinstance(s, ast.AugAssign) and isinstance(s.op, ast.Add)
                             and isinstance(s.target, ast.Name) and isinstance(s.value, ast.Constant) and s.value.value == 1]
                 set_true = [s.targets[0].id for s in st.body if isinstance(s, ast.Assign) and len(s.targets) == 1
@@ -682,7 +682,7 @@ def run_meta_triples(ctx: Ctx) -> RuleResult:
         t = n.targets[0]
         v = n.value
         if not (isinstance(v, ast.Call) and isinstance(v.func, ast.Name) and v.func.id == 'getattr' and len(v.args) == 3):
-            if t.attr in META_FIELDS and norm(t.value) in res_names:
+            if t.attr in META_FIELDS and (norm(t.value) in res_names or (isinstance(t.value, ast.Attribute) and t.value.attr == 'meta')):
                 # a coordinate of the result's meta assigned without the container fallback
                 n_triples += 1
                 res.ob(f.loc(n), '%s is copied as getattr(<child meta>, container_..., <child meta>....)' % norm(t), False)
